@@ -3,6 +3,20 @@ pkg = test package under harness/, level = evidence level, jobs[tier] = list of
 {part, shards, checks (rapid cases per shard), journal, timeout, scale}."""
 
 CHECKS = {
+    'C09': dict(pkg='c09', level='exploration',
+        technique='stateful property-based testing: rapid-generated push workloads (Notify/Callback from outside and from parked handlers, scripted peer replies in any order / duplicated / late / unsolicited, fake-clock deadlines, Stop) in a testing/synctest bubble; history invariants over push returns, wire requests and peer replies plus the server reference model for anything the server emits',
+        level_text='Generated push workloads against a real server with a raw scripted peer: every Callback must return exactly once with the first reply sent for its id (or an admissible raced one), its context error, or an error after stop, never another payload; each push is transmitted exactly once with ids unique among outstanding callbacks; unsolicited, late and duplicate replies complete nothing and provoke no outbound message; replies are delivered while dispatch is parked behind a notification. Exploration.',
+        level_note='Trusts harness/oracle/push.go and the scripted peer; replies sent before the request was visible to the peer are treated as admissible-either (DESIGN section 7).',
+        jobs=dict(
+        quick=[dict(part='scenarios', shards=4, checks=1500, journal=True)],
+        thorough=[dict(part='scenarios', shards=14, checks=30000, journal=True, timeout=3000)])),
+    'C08': dict(pkg='c08', level='fault_enumeration',
+        technique='stateful property-based testing plus fault enumeration: rapid-generated traffic with Stop / peer close at any position in a testing/synctest bubble (goroutine-leak and deadlock detection by the bubble), every channel operation of small scenarios re-run with each fault kind; worker crashes recovered through a case journal',
+        level_text='Generated histories mix traffic with Stop, peer close and injected Recv/Send faults on channels whose Close does and does not unblock Recv; for small scenarios a fault is injected at EVERY Recv and Send index with every fault kind. Checked: the process survives, WaitStatus returns after all handlers with the status of the first cause, parked calls see cancelled contexts, notifications received before the stop still run, no goroutine or state is left, the restarted server serves a probe. Fault enumeration over the generated scenarios; not a proof.',
+        level_note='Trusts the bubble notion of quiescence/leak (testing/synctest), the E4 channel wrapper and harness/oracle/shutdown.go; raced stop causes are judged by admissible sets.',
+        jobs=dict(
+        quick=[dict(part='scenarios', shards=4, checks=1500, journal=True), dict(part='faults', shards=4, checks=50, journal=True)],
+        thorough=[dict(part='scenarios', shards=10, checks=30000, journal=True, timeout=3000), dict(part='faults', shards=10, checks=800, journal=True, timeout=3000)])),
     'C03': dict(pkg='c03', level='exploration',
         technique='stateful property-based testing: rapid-generated scripts (records, handler releases, CancelRequest) against a real Server in a testing/synctest bubble with generated hook delays; history judged at every quiescent point by a sequential reference model',
         level_text='Scenarios biased to parked notification handlers followed by later records; the safety half (a notification has returned before any later request is invoked) is checked on the logical clock of the handler log, the liveness half (later requests start as soon as no earlier notification is unfinished; a running call delays nothing) at every sound quiescent point of the bubble. Exploration.',
@@ -15,8 +29,8 @@ CHECKS = {
         level_text='Scenarios with Concurrency 1-4 and batches larger than the limit; an entry/exit counter in the gated handlers must never exceed the limit, at quiescence no dispatched request may wait while a slot is free, built-ins count against the limit, a call cancelled while waiting for a slot is answered -32097 and never runs. Exploration.',
         level_note='Trusts the sequential model in harness/oracle/server.go (arrival order, notification barrier, id reservations, slots) and refrpc; races the model cannot decide are classified dont-care (DESIGN section 7); schedule coverage as in DESIGN section 10.',
         jobs=dict(
-        quick=[dict(part='scenarios', shards=4, checks=1500, journal=True)],
-        thorough=[dict(part='scenarios', shards=14, checks=30000, journal=True, timeout=3000)])),
+        quick=[dict(part='scenarios', shards=4, checks=1500, journal=True), dict(part='deadline', shards=1, checks=1500, journal=True)],
+        thorough=[dict(part='scenarios', shards=14, checks=30000, journal=True, timeout=3000), dict(part='deadline', shards=2, checks=30000, journal=True, timeout=3000)])),
     'C07': dict(pkg='c07', level='exploration',
         technique='stateful property-based testing: rapid-generated scripts (records, handler releases, CancelRequest) against a real Server in a testing/synctest bubble with generated hook delays; history judged at every quiescent point by a sequential reference model',
         level_text='Histories over a small id pool with constant reuse, CancelRequest for in-flight / finished / unknown ids; at every quiescent point the cancelled-context set and the reserved-id snapshot must equal the model, duplicates of in-flight ids are rejected without disturbing the first call, ids are accepted again after any reply. Exploration.',
@@ -29,8 +43,8 @@ CHECKS = {
         level_text='Generated scenarios (several records in flight, handlers finishing in any order with result/error/unmarshalable outcomes, bursts of racing steps, schedules steered through hook delays) are executed against the real server; at every sound quiescent point and at the end the wire log and the handler log must satisfy exactly-once, correlation, grouping, ordering and silence for messages with nothing to report. Exploration.',
         level_note='Trusts the sequential model in harness/oracle/server.go and refrpc; schedule coverage is what hook sites, bursts and gated handlers can express (DESIGN section 10).',
         jobs=dict(
-        quick=[dict(part='scenarios', shards=4, checks=1500, journal=True)],
-        thorough=[dict(part='scenarios', shards=14, checks=30000, journal=True, timeout=3000)])),
+        quick=[dict(part='scenarios', shards=4, checks=1500, journal=True), dict(part='deadline', shards=1, checks=1500, journal=True)],
+        thorough=[dict(part='scenarios', shards=14, checks=30000, journal=True, timeout=3000), dict(part='deadline', shards=2, checks=30000, journal=True, timeout=3000)])),
     'C02': dict(pkg='c02', level='exploration',
         technique='differential oracle: an independent JSON-RPC 2.0 member classifier (admissible-outcome sets) against a real Server in a synctest bubble; complete product of per-field variants enumerated, rapid-generated batches/mutations beyond it; liveness probe after every record',
         level_text='Every combination of per-field variants of a request object (30240) is sent as a single record to a real server on a plain and a push-enabled configuration; replies (or their absence, decided at a sound quiescent point of the bubble), handler invocations and a follow-up probe call are compared with a reference classifier written from the spec. Batches, random near-valid JSON and byte mutations are searched beyond the product. Exploration; exhaustive for the product only.',
